@@ -43,6 +43,7 @@ struct Spec {
     bool ordered_arrival = false;
     std::vector<std::string> late;      // scripts of threads that are started after the ordered ones have queued up and arrive whenever the schedule lets them
     int rendezvous = 0;                 // C12(iii): number of readers that meet at a barrier inside the read section
+    int spurious = 0;                   // spurious condition-variable wake-ups the scheduler may generate per execution (each costs 1 from the bound)
 };
 
 int pred_parked(void *arg) { return vs_thread_waiting((int)(long)arg); }
@@ -183,11 +184,13 @@ void add(VSuite &suite, Spec s, int bound, const std::string &flavour, bool unlo
     VProgram p;
     std::string nm = s.rendezvous ? "rendezvous" + std::to_string(s.rendezvous) : (s.holder ? std::string("hold") + s.holder + (s.ordered_arrival ? "-ordered-" : "-") : std::string()) + join(s.scripts);
     if (!s.late.empty()) nm += "+late-" + join(s.late);
-    p.name = nm + (s.guards ? "-guards" : "");
+    p.name = nm + (s.guards ? "-guards" : "") + (s.spurious ? "+spurious" : "");
+    p.spurious = s.spurious;
     p.describe = s.rendezvous ? "main holds the write lock while " + std::to_string(s.rendezvous) + " readers queue up one after the other; after it unlocks the readers wait for each other inside the read section"
                  : std::string(s.holder ? std::string("main holds ") + s.holder + " while the threads " + (s.ordered_arrival ? "queue up in order" : "start") + "; " : "") +
                    (s.late.empty() ? std::string() : "late threads [" + join(s.late) + "] start while the holder still holds and arrive at any time; ") +
-                   "threads run the scripts [" + join(s.scripts) + "] (R/W = one read/write critical section with a scheduling point inside)" + (s.guards ? " using ReadLock/WriteLock guards" : " using raw lock*/unlock* calls");
+                   "threads run the scripts [" + join(s.scripts) + "] (R/W = one read/write critical section with a scheduling point inside)" + (s.guards ? " using ReadLock/WriteLock guards" : " using raw lock*/unlock* calls") +
+                   (s.spurious ? "; one spurious wake-up of a thread waiting on the condition variable may happen anywhere (costs 1 like a preemption)" : "");
     p.bound = bound;
     p.unlock_points = unlock_points;
     p.body = [s] { run(s); };
@@ -247,7 +250,7 @@ bool provider(const std::string &prop, const std::string &tier, const std::strin
     suite.rule = "every schedule (choice vector at the scheduling points lock / cond-wait / re-acquire / notify / thread create+exit+join / explicit points) with at most c preemptions, "
                  "for each listed program and c = 0..bound; all schedules are distinct by construction; non-trivial = some thread really blocked (on the internal mutex or the condition variable)";
     suite.assumptions = {"sequential consistency at synchronisation-step granularity (data-race freedom is checked separately by C15 on the same programs)",
-                         "no spurious condition-variable wake-ups are generated", "bounded: programs and preemption bounds as listed per program"};
+                         "spurious condition-variable wake-ups are generated only in the programs marked +spurious (one per execution, costing 1 deviation)", "bounded: programs and preemption bounds as listed per program"};
     if (prop == "C01") suite.relevant = [](int o, const std::string &, const std::string &) { return o == VS_OUT_ORACLE || o == VS_OUT_CRASH; };
     if (prop == "C02") suite.relevant = [](int o, const std::string &, const std::string &) { return o == VS_OUT_DEADLOCK || o == VS_OUT_ORACLE; };
     if (prop == "C03") suite.relevant = [](int o, const std::string &, const std::string &) { return o == VS_OUT_ORACLE; };
@@ -259,6 +262,10 @@ bool provider(const std::string &prop, const std::string &tier, const std::strin
         for (int k = 2; k <= (thorough ? 4 : 3); k++) { Spec s = base; s.rendezvous = k; add(suite, s, thorough ? 3 : 2, flavour); s.guards = true; if (k == 2) add(suite, s, 2, flavour); }
         for (auto &v : multisets(3, {"R", "W"})) if (v != std::vector<std::string>{"R", "R", "R"}) { Spec s = base; s.scripts = v; add(suite, s, 2, flavour); }
         { Spec s = base; s.scripts = {"R", "R", "W", "R"}; s.holder = 'W'; s.ordered_arrival = true; add(suite, s, 2, flavour); }
+        // spurious wake-ups: a reader of a queued batch (or the writer in front of it) may wake without a notification at any time
+        { Spec s = base; s.rendezvous = 2; s.spurious = 1; add(suite, s, 2, flavour); }
+        if (thorough) { Spec s = base; s.rendezvous = 3; s.spurious = 1; add(suite, s, 2, flavour); }
+        { Spec s = base; s.scripts = {"R", "R", "W"}; s.spurious = 1; add(suite, s, 2, flavour); }
         return true;
     }
 
@@ -271,6 +278,10 @@ bool provider(const std::string &prop, const std::string &tier, const std::strin
     for (auto &v : multisets(2, {"RR", "RW", "WR", "WW"})) { Spec s = base; s.scripts = v; add(suite, s, 3, flavour); }
     { Spec s = base; s.scripts = {"R", "W", "R"}; s.guards = true; add(suite, s, 3, flavour); }
     { Spec s = base; s.scripts = {"WR", "RW"}; s.guards = true; add(suite, s, 2, flavour); }
+    // spurious wake-ups (POSIX allows them for every condition wait): one per execution, anywhere, in addition to the preemptions
+    for (auto &v : multisets(3, {"R", "W"})) { Spec s = base; s.scripts = v; s.spurious = 1; add(suite, s, thorough ? 3 : 2, flavour); }
+    { Spec s = base; s.scripts = {"W", "R", "R", "W"}; s.spurious = 1; add(suite, s, 2, flavour); }
+    { Spec s = base; s.scripts = {"RW", "WR"}; s.spurious = 1; add(suite, s, 2, flavour); }
     if (thorough) {
         for (auto &v : multisets(5, {"R", "W"})) { Spec s = base; s.scripts = v; add(suite, s, 2, flavour); }
         { Spec s = base; s.scripts = {"W", "R", "R", "W", "R"}; add(suite, s, 2, flavour); }
@@ -283,6 +294,7 @@ bool provider(const std::string &prop, const std::string &tier, const std::strin
             Spec s = base; s.holder = sh[0][0]; s.ordered_arrival = true;
             std::stringstream ss(sh[1]); std::string tok; while (std::getline(ss, tok, ',')) s.scripts.push_back(tok);
             add(suite, s, 2, flavour);
+            s.spurious = 1; add(suite, s, 2, flavour);       // a queued waiter wakes spuriously while the holder still holds, or between admission and its own wake-up
         }
         if (prop == "C03") {
             // a queue of two or three waiting requests plus one late arrival of either kind: the late request must not overtake anything that was
